@@ -286,6 +286,11 @@ func Cusum(e []bool, forward bool) float64 {
 			z = -s
 		}
 	}
+	return CusumP(n, z)
+}
+
+// CusumP is the standard's normal-CDF series for a walk of n steps with maximum absolute partial sum z.
+func CusumP(n, z int) float64 {
 	sn := math.Sqrt(float64(n))
 	fz := float64(z)
 	p := 1.0
